@@ -481,7 +481,7 @@ def rule_profile_diff(prop, ctx_repo_dev, repo_rel, ls_factory):
              "detail": next((x["detail"] for x in sts if x["detail"]), None)}
         if s["fails"]:
             R.violation(key, "%s in %s fails in debug builds and wraps silently in release: %s" % (what, p, s["detail"]), loc_of(b, bb), p)
-        elif s["unknown"] and lensim_discharges(repo, ls_factory, lscache, b, bb):
+        elif s["unknown"] and lensim_discharges(repo, ls_factory, lscache, b, bb, callers):
             R.ok(sample={"site": loc_of(b, bb), "fn": p, "kind": what, "decided_by": "value-set analysis over the complete length partition"})
         elif s["unknown"]:
             R.violation(key, "dev-only %s assertion in %s is not bounded by the interval analysis (%s): debug and release may differ" % (what, p, s["detail"]), loc_of(b, bb), p)
@@ -517,25 +517,43 @@ def rule_profile_diff(prop, ctx_repo_dev, repo_rel, ls_factory):
     return R.finish()
 
 
-def lensim_discharges(repo, ls_factory, cache, b, bb):
-    """Is the assertion decided safe for every abstract input (length, first byte) of its own function? (byte-provenance
-    abstract execution over the complete length partition; a fresh analysis per function so that sites are its own)"""
+def lensim_discharges(repo, ls_factory, cache, b, bb, callers=None):
+    """Is the assertion decided safe for every abstract input (length, first byte)? Byte-provenance abstract execution over
+    the complete length partition of the function itself when it takes the bytes, otherwise (a private helper whose
+    arguments are fixed by its callers, e.g. a const-generic padding routine) of every byte-level function it is reached from."""
+    F = repo.F
     p = b.rec["path"]
-    if p not in cache:
-        cv = ls_factory(repo)
-        sp, kinds = cv.shape(b)
-        if sp is None and not any(k.startswith("array") for k in kinds):
-            cache[p] = None
-        else:
-            ex = cv.explore(b)
-            cache[p] = (cv, ex)
-    if cache[p] is None:
-        return False
-    cv, ex = cache[p]
-    if any(o.unknown for o in ex.values()):
-        return False
-    rec = cv.sites.get((p, bb))
-    return bool(rec) and rec["ok"] > 0 and not rec["fail"] and not rec["unknown"]
+
+    def explored(q):
+        if q not in cache:
+            qb = F.bodies[q]
+            cv = ls_factory(repo)
+            sp, kinds = cv.shape(qb)
+            if (sp is None and not any(k.startswith("array") for k in kinds)) or qb.rec.get("requires_mono"):
+                cache[q] = None
+            else:
+                ex = cv.explore(qb)
+                cache[q] = (cv, ex)
+        return cache[q]
+    visits = [0]
+
+    def covered(q, depth, seen):
+        if depth > 5 or q in seen:
+            return False
+        e = explored(q)
+        if e is not None:
+            cv, ex = e
+            if any(o.unknown for o in ex.values()):
+                return False
+            rec = cv.sites.get((p, bb))
+            if rec and (rec["fail"] or rec["unknown"]):
+                return False
+            visits[0] += rec["ok"] if rec else 0
+            return True
+        if F.is_public_api(q) or not callers or not callers.get(q):
+            return False
+        return all(covered(c, depth + 1, seen | {q}) for c in callers[q])
+    return covered(p, 0, frozenset()) and visits[0] > 0
 
 
 def ordinal(body, bb, kind):
